@@ -117,6 +117,15 @@ Theorem C14_add_overflow_iff : forall t dd ds du,
 Proof. exact cds_add_overflow_iff. Qed.
 Print Assumptions C14_add_overflow_iff.
 
+(* the same object incremented any number of times *)
+Theorem C14_add_history : forall tds t r,
+  cds_valid t -> Forall (fun x => let '(d, s, u) := x in td_valid d s u /\ 0 <= d) tds ->
+  cds_add_all t tds = Ok r ->
+  cds_valid r /\
+  cds_instant_ms r = cds_instant_ms t + fold_right (fun x acc => let '(d, s, u) := x in td_ms d s u + acc) 0 tds.
+Proof. exact cds_add_all_instant. Qed.
+Print Assumptions C14_add_history.
+
 Theorem C14_eq : forall a b, cds_eqb a b = true <-> a = b.
 Proof. exact cds_eqb_eq. Qed.
 Print Assumptions C14_eq.
